@@ -275,6 +275,28 @@ def bcast_check(ctx, c, outs):
     return None
 
 
+def bcast_vec_check(ctx, c, outs):
+    """rotation (mixed proper/improper) times vectors over broadcastable shapes = per-element products"""
+    Q, R, O, M, qmod, V, Mi = _imp()
+    R1 = _rot(R, c["r1"])
+    sa, sb = tuple(c["r1"]["shape"]), tuple(c["vshape"])
+    v = V(np.array(c["v"], float).reshape(sb + (3,)))
+    out = (R1 * v).data
+    shp = np.broadcast_shapes(sa, sb)
+    if tuple(out.shape[:-1]) != tuple(shp):
+        return f"broadcast product shape {tuple(out.shape[:-1])} != {tuple(shp)}"
+    A = np.broadcast_to(R1.data, shp + (4,))
+    IA = np.broadcast_to(R1.improper, shp)
+    B = np.broadcast_to(v.data, shp + (3,))
+    scale = max(1.0, float(np.abs(v.data).max()))
+    for i in np.ndindex(*shp):
+        e = (Q(A[i]) * V(B[i])).data.reshape(3) * (-1.0 if IA[i] else 1.0)
+        if np.abs(out[i] - e).max() / scale > 1e-12:
+            return (f"(R*v)[{i}] = {out[i].tolist()} but the element-wise product of R[..] (improper={bool(IA[i])}) and v[..] is "
+                    f"{e.tolist()} (shapes {sa} x {sb})")
+    return None
+
+
 def align_check(ctx, c, outs):
     Q, R, O, M, qmod, V, Mi = _imp()
     q = np.array(c["q"], float)
@@ -302,6 +324,7 @@ SITES = {
     "compose": sites.Site("compose", "prop", compose_check),
     "outer_index": sites.Site("outer_index", "prop", outer_prop_check),
     "broadcast": sites.Site("broadcast", "prop", bcast_check),
+    "broadcast_vec": sites.Site("broadcast_vec", "prop", bcast_vec_check),
     "align": sites.Site("align", "prop", align_check),
 }
 PREDICATES = {}
@@ -372,6 +395,10 @@ def generate(ctx):
         c = {"r1": rot_arr(rng, sa), "r2": rot_arr(rng, sb)}
         ctx.count("broadcast", ("bc", sa, sb, c["r1"]["q"]), nontrivial=(sa != sb))
         yield "broadcast", c
+        sa, sb = G.broadcast_pair(rng)
+        c = {"r1": rot_arr(rng, sa), "vshape": list(sb), "v": [G.vec(rng) for _ in range(int(np.prod(sb)))]}
+        ctx.count("broadcast_vec", ("bv", sa, sb, c["r1"]["q"]), nontrivial=(sa != sb))
+        yield "broadcast_vec", c
         nv = int(rng.integers(2, 7))
         vs = [G.vec(rng) for _ in range(nv)]
         if np.linalg.matrix_rank(np.array(vs)) < 2:
